@@ -7,29 +7,8 @@ from sa.model import AnalysisError
 from sa.terms import flatten_concat, match_parts, parts_text, kwargs_of, is_literal
 from .common import assume_from, only_path, final_writes, guards_text, describe
 
-META = {
-    'level': 'other',
-    'explanation': (
-        'Static decision of the structural part of the packet codec: Packet.__init__, encode '
-        'and decode are abstractly executed (constant/kind propagation over the CFG, no code '
-        'is run) for every abstract input case - 7 packet types x 7 payload kinds for the '
-        'constructor, every (binary?, payload kind, channel) case and every reachable abstract '
-        'cache state for encode (fixpoint over all sequences of encode calls), 6 input classes '
-        'x 7 JSON result kinds for decode - and the provenance term reaching each return / '
-        'attribute write is compared structurally with the Engine.IO v4 wire table. '
-        'Not decided: that loads(dumps(x)) == x and b64decode(b64encode(x)) == x (library '
-        'semantics, trusted).'),
-    'trusted_base': [
-        'json.dumps/json.loads and base64.b64encode/b64decode are mutually inverse (stdlib)',
-        'int(c) raises ValueError for a character that is not a digit',
-        'str(t) of a packet type 0..6 is its single decimal digit',
-        'abstract evaluator semantics of isinstance/type/is/==/len on builtin kinds (sa/absval.py)',
-    ],
-    'not_decided': ['round-trip equality of payload values (library semantics)',
-                    'mutation of packet.data after construction (outside the property)'],
-    'assumptions': ['Packet.json is engineio.json or a drop-in replacement'],
-    'exhaustive': True,
-}
+from .meta import meta
+META = meta('C01', level='other', extra_tb=['json.dumps/json.loads and base64.b64encode/b64decode are mutually inverse (stdlib)', 'int(c) raises ValueError for a non-digit character', 'str(t) of a packet type 0..6 is its decimal digit'])
 
 KINDS = ['str', 'bytes', 'bytearray', 'dict', 'list', 'none', 'int']
 TEXT_TAG = {'str': 'text:str', 'dict': 'text:json', 'list': 'text:json', 'none': 'text:none',
